@@ -11,11 +11,10 @@ EXTENDS Sysex, TLC
 VARIABLES k, v
 
 IdTriples == {<<0, 1, 127>>, <<127, 0, 1>>, <<1, 127, 0>>}                 \* <<manufacturer, device, model>>
-IdTriplesThorough == {0, 127} \X {0, 127} \X {0, 127}
 AB  == {0, 1, 127}
 MaxPay == 3
 TcB == {0, 1, 59, 127}
-ABThorough == {0, 1, 64, 127}           \* MC_Sysex_thorough.cfg: AB <- ABThorough, MaxPay <- MaxPayThorough, IdTriples <- IdTriplesThorough
+ABThorough == {0, 1, 64, 127}           \* MC_Sysex_thorough.cfg: AB <- ABThorough, MaxPay <- MaxPayThorough
 MaxPayThorough == 4
 Strings(S, n) == UNION { [1..m -> S] : m \in 1..n }
 
@@ -45,7 +44,7 @@ ChecksumZero == k = "sx" =>
   /\ SxSumZero(b)
   /\ b[Len(b) - 1] \in SxB7
   /\ Len(b) = 10 + Len(SxBody(v))
-  /\ SxSum(v.addr) + SxSum(SxBody(v)) + b[Len(b) - 1] \in {0, 128, 256, 384, 512, 640, 768}
+  /\ (SxSum(v.addr) + SxSum(SxBody(v)) + b[Len(b) - 1]) % 128 = 0
 
 CorruptRejected == k = "sx" =>
   LET b == SxBuild(v) IN
